@@ -175,9 +175,10 @@ def stage_visit(rng, bad_items, quick):
     return desc, items, 2, call
 
 
-def stage_transform(rng, bad_items, quick):
+def stage_transform(rng, bad_items, quick, depth=None):
     from toasty import transform
-    depth = rng.choice((0, 1, 1, 2))
+    if depth is None:
+        depth = rng.choice((0, 1, 1, 2))
     from toasty.pyramid import generate_pos
     items = [tuple(p) for p in generate_pos(depth)]
     desc = dict(stage="transform", depth=depth)
@@ -276,6 +277,11 @@ def stage_multi_wcs(rng, bad_items, quick):
         proc._tile_parallel(_FakePio(), None, False, par)
 
     return desc, items, 2, call
+
+
+def stage_transform_deep(rng, bad_items, quick):
+    """85 items: more than the 16*par queue slots, so that dead workers leave the producer blocked"""
+    return stage_transform(rng, bad_items, quick, depth=3)
 
 
 STAGES = [stage_visit, stage_visit, stage_transform, stage_multi_tan, stage_multi_wcs]
